@@ -400,16 +400,17 @@ def r01_i(prog: Program, chk: Check) -> None:
 
 
 # ------------------------------------------------------------------- R01.j
-def r01_j(prog: Program, chk: Check) -> None:
+def r01_j(prog: Program, chk: Check, rule: str = "R01.j") -> None:
     from ..minterp import AssertionFailed, Interp, ModelError, Obj, PyRaise, Sym, Unsupported
 
     chk.rule(
-        "R01.j",
+        rule,
         "sequence patterns as a finite model: PatmaVisitor.visit_MatchSequence (with index_of) and LenPredicate.__call__ are interpreted from their AST for every sequence pattern "
         "of up to 3 sub-patterns with an optional star at every position; CPython executes the same `match` statement on tuples of length 0-4: the length predicate keeps a subject of "
-        "known length in the case's branch exactly when CPython takes the case (and in the fall-through exactly when it does not), and the values are unpacked with the numbers of "
-        "targets before and after the star",
-        floor=3,
+        "known length in the case's branch exactly when CPython takes the case (and in the fall-through exactly when it does not), the values are unpacked with the numbers of "
+        "targets before and after the star, and the fall-through may drop the sequence types from the subject (IsAssignablePredicate with positive_only=False) only for a pattern "
+        "that CPython takes for every length",
+        floor=4,
     )
     pv = prog.cls("PatmaVisitor")
     visit_fn = pv.methods.get("visit_MatchSequence")
@@ -419,6 +420,7 @@ def r01_j(prog: Program, chk: Check) -> None:
     call_fn = lp.methods["__call__"]
     module_defs = {"index_of": prog.func("patma", "index_of")}
     wrong_branch, wrong_unpack, crashes = [], [], []
+    drops_sequences: List[Dict[str, object]] = []
     n = 0
     patterns = []
     for k in range(0, 4):
@@ -444,7 +446,12 @@ def r01_j(prog: Program, chk: Check) -> None:
             return [Obj("Value", length=None) for _ in pats]
 
         unpack_values.wants_kwargs = True  # type: ignore[attr-defined]
-        any_pred = lambda args, kwargs=None: Obj("IsAssignablePredicate")  # noqa: E731
+        def any_pred(args, kwargs=None):
+            po = (kwargs or {}).get("positive_only", args[2] if len(args) > 2 else False)
+            if len(args) > 0 and isinstance(args[0], Sym) and str(args[0]) == "MatchableSequence" or "sequence_pred" not in captured:
+                captured["sequence_pred"] = po
+            return Obj("IsAssignablePredicate", positive_only=po)
+
         any_pred.wants_kwargs = True  # type: ignore[attr-defined]
         funcs = {
             "LenPredicate": len_predicate, "unpack_values": unpack_values, "IsAssignablePredicate": any_pred,
@@ -482,6 +489,16 @@ def r01_j(prog: Program, chk: Check) -> None:
         if tuple(captured["unpack"]) != want_unpack:  # type: ignore[arg-type]
             wrong_unpack.append({**d, "unpacked_with": list(captured["unpack"]), "targets_before_and_after_the_star": list(want_unpack)})  # type: ignore[arg-type]
         pred = captured["len_predicate"]
+        if "sequence_pred" not in captured or not isinstance(captured["sequence_pred"], bool):
+            raise AnchorError("visit_MatchSequence builds no IsAssignablePredicate(MatchableSequence, positive_only=<bool>) in the model")
+        takes_all = True
+        for length in range(0, 5):
+            ns0: Dict[str, object] = {"subject": tuple(range(length))}
+            exec(code, ns0)
+            takes_all = takes_all and bool(ns0["taken"])
+        n += 1
+        if captured["sequence_pred"] is False and not takes_all:
+            drops_sequences.append({**d, "positive_only": False, "problem": "the fall-through drops every sequence type from the subject, but CPython does not take this case for every sequence"})
         for length in range(0, 5):
             ns: Dict[str, object] = {"subject": tuple(range(length))}
             exec(code, ns)  # CPython's own pattern matching is the reference
@@ -501,9 +518,90 @@ def r01_j(prog: Program, chk: Check) -> None:
     chk.model_evaluations += n
     chk.analysed["sequence_pattern_model"] = {"checks": n, "patterns": len(patterns)}
     site = prog.site("patma", visit_fn)
-    chk.ob("R01.j", "patma::sequence-pattern-model::a subject of known length is in the branch CPython takes", not wrong_branch, site, f"{n} checks, {len(wrong_branch)} subjects in the wrong branch" + (f"; first: {wrong_branch[0]}" if wrong_branch else ""), witness=wrong_branch[:4])
-    chk.ob("R01.j", "patma::sequence-pattern-model::unpacked with the targets before and after the star", not wrong_unpack, site, f"{len(wrong_unpack)} patterns unpacked with other numbers" + (f"; first: {wrong_unpack[0]}" if wrong_unpack else ""), witness=wrong_unpack[:4])
-    chk.ob("R01.j", "patma::sequence-pattern-model::no-crash", not crashes, site, f"{len(crashes)} crashes" + (f"; first: {crashes[0]}" if crashes else ""), witness=crashes[:3])
+    chk.ob(rule, "patma::sequence-pattern-model::the fall-through keeps sequence subjects unless the pattern takes every sequence", not drops_sequences, site, f"{len(patterns)} patterns, {len(drops_sequences)} whose fall-through loses sequences" + (f"; first: {drops_sequences[0]}" if drops_sequences else ""), witness=drops_sequences[:4])
+    chk.ob(rule, "patma::sequence-pattern-model::a subject of known length is in the branch CPython takes", not wrong_branch, site, f"{n} checks, {len(wrong_branch)} subjects in the wrong branch" + (f"; first: {wrong_branch[0]}" if wrong_branch else ""), witness=wrong_branch[:4])
+    chk.ob(rule, "patma::sequence-pattern-model::unpacked with the targets before and after the star", not wrong_unpack, site, f"{len(wrong_unpack)} patterns unpacked with other numbers" + (f"; first: {wrong_unpack[0]}" if wrong_unpack else ""), witness=wrong_unpack[:4])
+    chk.ob(rule, "patma::sequence-pattern-model::no-crash", not crashes, site, f"{len(crashes)} crashes" + (f"; first: {crashes[0]}" if crashes else ""), witness=crashes[:3])
+
+
+
+# ------------------------------------------------------------------- R01.k
+def r01_k(prog: Program, chk: Check) -> None:
+    import collections
+
+    from ..minterp import AssertionFailed, Interp, ModelError, Obj, PyRaise, Sym, Unsupported
+
+    chk.rule(
+        "R01.k",
+        "a literal length is only read off what cannot change: implementation.len_of_value (the result of len(), the provider of `len(x) <op> n` narrowing and of sequence "
+        "patterns) is interpreted from its AST on sequence values of tuple / list / set type with 0-3 members (with and without an unpacked run) and on literals holding real "
+        "tuples, strings, bytes, frozensets, lists, sets, dicts, deques and an int: it answers Literal[n] only for an immutable container whose every object has n elements "
+        "(a list or set display is an approximation of an object that append / extend / add change, and two members of a set display may be equal), and then n is the real length",
+        floor=3,
+    )
+    fn = prog.func("implementation", "len_of_value")
+    mutable_names = None
+    for m in prog.modules.values():
+        for st in m.tree.body:
+            if isinstance(st, ast.Assign) and len(st.targets) == 1 and isinstance(st.targets[0], ast.Name) and st.targets[0].id == "KNOWN_MUTABLE_TYPES" and isinstance(st.value, ast.Tuple):
+                mutable_names = [norm(e) for e in st.value.elts]
+    if mutable_names is None:
+        raise AnchorError("KNOWN_MUTABLE_TYPES not found")
+    table = {"list": list, "set": set, "dict": dict, "deque": collections.deque, "bytearray": bytearray}
+    if not all(n in table for n in mutable_names):
+        raise AnchorError(f"KNOWN_MUTABLE_TYPES holds a name the model does not know: {mutable_names}")
+    mutable = tuple(table[n] for n in mutable_names)
+
+    def hook(v, cls):
+        if cls in ("SequenceValue", "KnownValue", "TypedValue"):
+            return isinstance(v, Obj) and v._kind == cls
+        return None
+
+    def seq(typ, flags):
+        members = tuple((f, Obj("TypedValue", typ=int)) for f in flags)
+
+        def gms(members=members):
+            return None if any(f for f, _ in members) else [x for _, x in members]
+
+        return Obj("SequenceValue", typ=typ, members=members, get_member_sequence=gms)
+
+    cases = []
+    for typ in (tuple, list, set):
+        for flags in ((), (False,), (False, False), (False, False, False), (True,), (False, True), (True, False)):
+            desc = f"<{typ.__name__} display with members [{', '.join('*int' if f else 'int' for f in flags)}]>"
+            exact = None if (typ is not tuple or any(flags)) else len(flags)
+            cases.append((desc, seq(typ, flags), exact))
+    for payload in ((), (1, 2), "ab", "", b"abc", frozenset({1, 2}), range(3), [1, 2], [], {1, 2}, {"a": 1}, collections.deque([1]), 5, None):
+        exact = None
+        if not isinstance(payload, (list, set, dict, collections.deque, bytearray)):
+            try:
+                exact = len(payload)  # type: ignore[arg-type]
+            except TypeError:
+                exact = None
+        cases.append((f"Literal[{payload!r}]", Obj("KnownValue", val=payload), exact))
+    funcs = {"KnownValue": lambda a: Obj("KnownValue", val=a[0]), "TypedValue": lambda a: Obj("TypedValue", typ=a[0])}
+    unsound, imprecise, crashes = [], [], []
+    for desc, value, exact in cases:
+        it = Interp({}, {}, (), funcs, hook, {}, {}, {"KNOWN_MUTABLE_TYPES": mutable})
+        try:
+            res = it.call_def(fn, [value], fn)
+        except Unsupported as u:
+            raise AnchorError(f"len_of_value cannot be modelled: {u}")
+        except (AssertionFailed, PyRaise, ModelError) as e:
+            crashes.append({"value": desc, "error": str(e)})
+            continue
+        chk.model_evaluations += 1
+        got = res._attrs["val"] if isinstance(res, Obj) and res._kind == "KnownValue" else None
+        if got is not None and got != exact:
+            unsound.append({"value": desc, "inferred": f"Literal[{got}]", "lengths at run time": "any (the container can change, members of a set display may be equal)" if exact is None else exact})
+        elif got is None and exact is not None:
+            imprecise.append({"value": desc, "length": exact})
+        if not (isinstance(res, Obj) and (res._kind == "KnownValue" or (res._kind == "TypedValue" and res._attrs["typ"] is int))):
+            unsound.append({"value": desc, "inferred": repr(res)[:80], "lengths at run time": "an int"})
+    site = prog.site("implementation", fn)
+    chk.ob("R01.k", "implementation::len_of_value::a literal length is the length of every object the value stands for", not unsound, site, f"{len(cases)} values, {len(unsound)} with a literal length that run time can contradict" + (f"; first: {unsound[0]}" if unsound else ""), witness=unsound[:5])
+    chk.ob("R01.k", "implementation::len_of_value::no-crash", not crashes, site, f"{len(crashes)} values raise" + (f"; first: {crashes[0]}" if crashes else ""), witness=crashes[:3])
+    chk.ob("R01.k", "implementation::len_of_value::immutable containers keep their literal length", len(imprecise) < sum(1 for _, _, e in cases if e is not None), site, f"{len(imprecise)} immutable containers without a literal length (all of them: the function no longer answers at all)", witness=imprecise[:3])
 
 
 def run(prog: Program, chk: Check) -> None:
@@ -514,3 +612,4 @@ def run(prog: Program, chk: Check) -> None:
     guard(chk, index_range_rule, prog, chk, "R01.f")
     guard(chk, r01_i, prog, chk)
     guard(chk, r01_j, prog, chk)
+    guard(chk, r01_k, prog, chk)
